@@ -63,6 +63,11 @@ CHECKS = {
    text="Theorems: dofmap_partition, inletDof_succ, root_start, root_panel (heat balance of every tube in the code's exact form), root_manifold, mass_split, profile_linear/profile_affine, recover_indexing, for any chain length, tubes per panel, weights and grid counts. Tied to srlife by comparing link residual vectors, dof maps, recovered flow rates and profiles of real chains (1-4 panels, 1-4 tubes, multipliers, shipped fluids) with the model on Float (1e-10), the slicing of tube ghost arrays in add_panel_from_object (exact), and by recomputing inlet node, per-tube heat balance, manifold mean, mass split and linear profile independently in numpy on real FlowPath.solve solutions.",
    note="Trusted: Lean kernel + Mathlib; jax/numpy arithmetic (1e-10); the time interpolations enter the model as their values at the query time (re-interpolated independently in the predicate); per-panel geometry from the first tube (as the code says).",
    design="4/C14"),
+ "C05": dict(
+   technique="Lean 4 proof over the reals (rpow/exp monotonicity, list induction over elements, time steps, tubes and ragged panels; frame indifference from the eigenvalue contract, which is itself discharged from Mathlib's charpoly conjugation lemma) + Float correspondence with the real models with numpy's eigvalsh results recorded in-process + metamorphic predicates on the real code",
+   text="Theorems for all eight models, any number of elements/time steps/tubes/panels: assemble_roundtrip (stored tensor -> Mandel -> tensor is the identity), frame_indifferent (+ quadrature version, + eigvalsh_contract), reliability_range (log <= 0, reliability in (0,1]) at element/tube/receiver level, volume_linear, pia_wntsa_compressive, cutoff_scale, t0_power_law (both zero-time branches), mono_time, mono_scale, pia_uniaxial, batdorf_uniaxial (all six Batdorf models, polar axis, same-grid normalisation), aggregation (panel = product of tube^multiplier, overall = product of panels, ragged panels). Tied to srlife by replaying tube_log_reliability/determine_reliability on synthetic receivers in-process with recorders around calculate_element_log_reliability and numpy.linalg.eigvalsh and comparing element entries, tube series and aggregates with the model (1e-9), the orientation grids (1e-15), and by metamorphic runs on the real code (random rotations incl. repeated principal values, scale, service time, volume, zero-time power law, compressive states, uniaxial law, aggregation).",
+   note="Trusted: Lean kernel + Mathlib; numpy.linalg.eigvalsh (its values are fed to the model; contract eig(QSQ^T)=eig(S)); libm pow/exp; material interpolation is an input to the model; Batdorf uniaxial law along non-polar axes and the WNTSA uniaxial law hold to quadrature accuracy only (measured within 5 %). pinned_mtsP_defect documents the repaired F28.",
+   design="4/C05"),
 }
 PENDING_REASON = "check not built yet in this round (work in progress; see DESIGN.md section 4 for the planned model and theorems) — not claimed"
 
